@@ -333,6 +333,8 @@ class C16(Sim):
             st.hit("probes.shipped_example_engine")
         vocab = sorted({v["name"] for v in sp["inputs"] + sp["outputs"]} | {t["name"] for v in sp["inputs"] + sp["outputs"] for t in v["terms"]})
         store = TornStore()
+        for _cls in S.classes_of(sp):
+            st.hit("classes." + _cls)
         # harness view of every rule: original text, text currently in force, whether it should be loaded
         cur_text = {(bi, ri): S.rule_text(r) for bi, b in enumerate(sp["blocks"]) for ri, r in enumerate(b["rules"])}
         orig_text = dict(cur_text)
